@@ -236,6 +236,14 @@ def corpus_files(groups=None, tier='thorough', seed=0):
                             continue
                     except ValueError:
                         continue
+                if g == 'ga' and not gn_all:
+                    # generated argument-passing programs: 6 call modes, program i has mode i % 6; quick takes a third, rotated by
+                    # VERIF_SEED, with every mode present
+                    try:
+                        if (int(fn[3:6]) // 6) % 3 != seed % 3:
+                            continue
+                    except ValueError:
+                        continue
                 out.append(os.path.join(cdir, fn))
     if groups is not None and 'sc' in groups:
         # programs using the scheduler plugin (`@`): the repository's scheduler fixtures (sc_* of /verif/corpus are picked up above)
